@@ -244,7 +244,7 @@ pub fn run(seed: u64, n: usize, out: &str, only: Option<usize>) {
     // trim would remove, a valid string with blanks or line ends around it
     {
         let valid = gen_machine(&mut SplitMix64::new(seed ^ 0x5a5a), &MProfile::mixed()).serialize();
-        let mut hostile: Vec<String> = ["", " ", "0", "02", "  ", "   ", "\n\n\n", "\t \r\n", "0\n\n", "2  ", " 0 ", "  2\n", "02 ", "02\n", " 02", "02=", "02==", "02A", "02AA", "02AA==", "02A===", "\u{0}\u{0}\u{0}", "                "]
+        let mut hostile: Vec<String> = ["", " ", "0", "02", "  ", "   ", "\n\n\n", "\t \r\n", "0\n\n", "2  ", " 0 ", "  2\n", "02 ", "02\n", " 02", "02=", "02==", "02A", "02AA", "02AA==", "02A===", "\u{0}\u{0}\u{0}", "                ", "0\u{e9}AAAA", "2\u{20ac}AAAA", "9\u{fffd}\u{fffd}", "02\u{e9}", "\u{e9}02AA", "02AA\u{e9}=", "0\u{1f600}", "\u{7f}\u{80}\u{80}"]
             .iter()
             .map(|x| x.to_string())
             .collect();
